@@ -19,6 +19,7 @@ from dataclasses import dataclass
 from sa.callgraph import CallGraph
 from sa.cfg import handler_types, suppress_types
 from sa.excflow import ExcFlow
+from sa.util import canon_text
 from sa.srcmodel import AnalysisError, FunctionInfo, Program, ancestors, dotted, unparse, walk_no_nested
 from sa.util import cfg_of, node_index
 
@@ -128,7 +129,7 @@ class AliasDeref:
                 if dealiased(f, n, rtext):
                     out.append(Site(f, n, rtext, "dealiased", f"`{rtext}` replaced by its final target under a handler on every path"))
                     continue
-                reason = tabled.get((f.qualname, unparse(n)))
+                reason = tabled.get((f.qualname, canon_text(f, n)))  # tables are written with canonical names (see sa.util.canon_names)
                 if reason is not None:
                     out.append(Site(f, n, rtext, "tabled", reason))
                     continue
